@@ -942,8 +942,8 @@ func applyBit(ctx Context, doc bsonkit.Doc, name, path string, v interface{}) er
 		resultVal = int32(result)
 	}
 
-	// no-op if value would not change
-	if field != bsonkit.Missing && bsonkit.Compare(field, resultVal) == 0 {
+	// no-op if value and type would not change
+	if field == resultVal {
 		return nil
 	}
 
